@@ -110,6 +110,7 @@ impl Prop for C07 {
         8000
     }
     fn gen(&self, g: &mut G<'_>, _tier: Tier) -> Case {
+        g.allow_offers = true;
         if g.chance(2, 5) {
             // single write: half natural, half arbitrary pairs
             let fv = g.coin();
@@ -197,6 +198,24 @@ impl Prop for C07 {
                     return ex;
                 }
                 ex.count("offers_refused", o.offers_refused as u64);
+                if o.failed_after_refused_offer && !o.result.is_panic() {
+                    // The library refused the offer and then also the calls that followed on the same
+                    // RowWriter.  No property promises that a row can be continued after a refusal;
+                    // what must hold is that nothing malformed went out: the bytes sent so far are a
+                    // conformant response cut short.
+                    ex.class("writer-unusable-after-a-refusal");
+                    let kinds: Vec<ReplyKind> = conv.cmds.iter().map(|sc| sc.cmd.reply_kind()).collect();
+                    let d = decode_output(&o.out, &kinds);
+                    if let Some(p) = &d.problem {
+                        if !d.truncated_only {
+                            ex.fail("c07-malformed-after-refusal", format!("after a refused write_col the row was given up, but what was sent is malformed: {}", p));
+                        }
+                    }
+                    if !o.result.is_err() {
+                        ex.fail("c07-refusal-swallowed", format!("the shim propagated a writer error but run_on returned {}", o.result.brief()));
+                    }
+                    return ex;
+                }
                 if let RunResult::Panic(p) = &o.result {
                     ex.fail(format!("c07-panic|{}", panic_signature(p)), format!("run_on panicked: {}", o.result.brief()));
                     return ex;
